@@ -33,7 +33,7 @@ func init() {
 			if tier == "quick" {
 				return 4
 			}
-			return 32
+			return 96
 		},
 		Batch:            1,
 		Workers:          4,
